@@ -116,6 +116,12 @@ struct Case {
     exec: bool,
     reject: Option<&'static str>,
     raw: Option<String>,
+    /// the functions are spread over two impl blocks of the same type
+    split_impl: bool,
+    /// parameter names to use instead of a0, a1, ...
+    arg_names: Option<Vec<&'static str>>,
+    /// for raw cases that may be accepted: (type, method) pairs that must then exist
+    expect_methods: Vec<(&'static str, &'static str)>,
 }
 
 pub fn arg_value(i: usize) -> u64 {
@@ -152,20 +158,41 @@ fn cases() -> Vec<Case> {
                     Func { name: format!("f{ri}"), recv, args: args.clone(), ret: r.clone(), addr: EXEC_ADDRS[(k + ri) % EXEC_ADDRS.len()] + 0x40 * ri as u64, public: true }
                 })
                 .collect();
-            out.push(Case { funcs, style: styles[k % 3], exec: true, reject: None, raw: None });
+            out.push(Case { funcs, style: styles[k % 3], exec: true, reject: None, raw: None, split_impl: false, arg_names: None, expect_methods: vec![] });
         }
     }
     // every executable address in every spelling
     for a in EXEC_ADDRS {
         for st in styles {
-            out.push(Case { funcs: vec![Func { name: "f".into(), recv: Recv::Const, args: vec![ATy::U64], ret: RTy::U64, addr: *a, public: true }], style: st, exec: true, reject: None, raw: None });
+            out.push(Case { funcs: vec![Func { name: "f".into(), recv: Recv::Const, args: vec![ATy::U64], ret: RTy::U64, addr: *a, public: true }], style: st, exec: true, reject: None, raw: None, split_impl: false, arg_names: None, expect_methods: vec![] });
         }
     }
     // addresses that cannot be mapped: literal checked in the text only
     for a in TEXT_ONLY_ADDRS {
         for st in styles {
-            out.push(Case { funcs: vec![Func { name: "f".into(), recv: Recv::Mut, args: vec![ATy::I32], ret: RTy::I32, addr: *a, public: false }], style: st, exec: false, reject: None, raw: None });
+            out.push(Case { funcs: vec![Func { name: "f".into(), recv: Recv::Mut, args: vec![ATy::I32], ret: RTy::I32, addr: *a, public: false }], style: st, exec: false, reject: None, raw: None, split_impl: false, arg_names: None, expect_methods: vec![] });
         }
+    }
+    // the functions of a type spread over two impl blocks
+    for recv in [Recv::None, Recv::Const] {
+        let funcs: Vec<Func> = (0..4).map(|i| Func { name: format!("f{i}"), recv, args: vec![ATy::U64, ATy::I32], ret: RTYS[i % RTYS.len()].clone(), addr: EXEC_ADDRS[i % EXEC_ADDRS.len()] + 0x400 + 0x40 * i as u64, public: true }).collect();
+        out.push(Case { funcs, style: NumStyle::Hex, exec: true, reject: None, raw: None, split_impl: true, arg_names: None, expect_methods: vec![] });
+    }
+    // parameter names that collide with names the wrapper itself uses
+    for names in [vec!["f", "this"], vec!["this", "f"], vec!["f_", "f"], vec!["r#type", "address"], vec!["name", "function"]] {
+        for recv in [Recv::None, Recv::Mut] {
+            let funcs = vec![Func { name: "g".into(), recv, args: vec![ATy::U64, ATy::PtrU8], ret: RTy::U64, addr: EXEC_ADDRS[1] + 0x800, public: true }];
+            out.push(Case { funcs, style: NumStyle::Dec, exec: true, reject: None, raw: None, split_impl: false, arg_names: Some(names.clone()), expect_methods: vec![] });
+        }
+    }
+    // impl blocks that do not belong to a type of the module: rejected, or every function emitted
+    for (text, expect) in [
+        ("pub enum E: u32 {\n    A,\n}\nimpl E {\n    #[address(0x10000)]\n    pub fn f(&self);\n}\n", vec![("E", "f")]),
+        ("#[size(4), align(4)]\nextern type X;\nimpl X {\n    #[address(0x10000)]\n    pub fn f(&self);\n}\n", vec![("X", "f")]),
+        ("pub type T {\n    pub x: [u32; 4],\n}\nimpl Missing {\n    #[address(0x10000)]\n    pub fn f(&self);\n}\n", vec![("Missing", "f")]),
+        ("pub type T {\n    pub x: [u32; 4],\n}\nimpl T {\n    #[address(0x10000)]\n    pub fn f(&self);\n}\nimpl T {\n    #[address(0x10040)]\n    pub fn g(&self);\n}\nimpl T {\n    #[address(0x10080)]\n    pub fn h(&self);\n}\n", vec![("T", "f"), ("T", "g"), ("T", "h")]),
+    ] {
+        out.push(Case { funcs: vec![], style: NumStyle::Dec, exec: false, reject: None, raw: Some(text.to_string()), split_impl: false, arg_names: None, expect_methods: expect });
     }
     // rejection menu
     for (why, text) in [
@@ -179,9 +206,16 @@ fn cases() -> Vec<Case> {
         ("negative_address", "pub type T {\n    pub x: u64,\n}\nimpl T {\n    #[address(-16)]\n    pub fn f(&self);\n}\n"),
         ("duplicate_function", "pub type T {\n    pub x: u64,\n}\nimpl T {\n    #[address(0x10000)]\n    pub fn f(&self);\n    #[address(0x10040)]\n    pub fn f(&self, a: u32);\n}\n"),
     ] {
-        out.push(Case { funcs: vec![], style: NumStyle::Dec, exec: false, reject: Some(why), raw: Some(text.to_string()) });
+        out.push(Case { funcs: vec![], style: NumStyle::Dec, exec: false, reject: Some(why), raw: Some(text.to_string()), split_impl: false, arg_names: None, expect_methods: vec![] });
     }
     out
+}
+
+fn arg_name(c: &Case, i: usize) -> String {
+    match &c.arg_names {
+        Some(n) => n[i].to_string(),
+        None => format!("a{i}"),
+    }
 }
 
 fn module_of(c: &Case) -> String {
@@ -198,12 +232,20 @@ fn module_of(c: &Case) -> String {
             fs.public = f.public;
             fs.recv = f.recv;
             fs.address = Some(f.addr as i128);
-            fs.args = f.args.iter().enumerate().map(|(i, a)| (format!("a{i}"), a.mty())).collect();
+            fs.args = f.args.iter().enumerate().map(|(i, a)| (arg_name(c, i), a.mty())).collect();
             fs.ret = f.ret.mty();
             fs
         })
-        .collect();
-    Printer { style: c.style }.module(&ModuleS::new("m").with(vec![Item::Type(t), Item::Impl { name: "T".into(), funcs }]))
+        .collect::<Vec<FuncS>>();
+    let mut items = vec![Item::Type(t)];
+    if c.split_impl {
+        let (a, b) = funcs.split_at(funcs.len() / 2);
+        items.push(Item::Impl { name: "T".into(), funcs: a.to_vec() });
+        items.push(Item::Impl { name: "T".into(), funcs: b.to_vec() });
+    } else {
+        items.push(Item::Impl { name: "T".into(), funcs });
+    }
+    Printer { style: c.style, reverse_type_attrs: false, docs_after_attrs: false }.module(&ModuleS::new("m").with(items))
 }
 
 fn driver(c: &Case) -> String {
@@ -230,6 +272,11 @@ fn judge_text(c: &Case, text: &str) -> Option<(String, String)> {
         Ok(f) => f,
         Err(e) => return Some(("output_unreadable".into(), e)),
     };
+    for (ty, m) in &c.expect_methods {
+        if fi.method(ty, m).is_none() {
+            return Some(("declared_function_not_emitted".into(), format!("the build succeeded but `{ty}::{m}` declared in an impl block is nowhere in the output:\n{text}")));
+        }
+    }
     for f in &c.funcs {
         let Some(m) = fi.method("T", &f.name) else {
             return Some(("wrapper_missing".into(), format!("T::{}", f.name)));
@@ -241,7 +288,7 @@ fn judge_text(c: &Case, text: &str) -> Option<(String, String)> {
             Recv::Mut => want_inputs.push(("&mut self".into(), String::new())),
         }
         for (i, a) in f.args.iter().enumerate() {
-            want_inputs.push((format!("a{i}"), synx::normalise(a.rust_type())));
+            want_inputs.push((arg_name(c, i), synx::normalise(a.rust_type())));
         }
         let want_out = f.ret.rust_type().map(synx::normalise);
         if m.inputs != want_inputs || m.output != want_out {
@@ -342,6 +389,11 @@ pub fn run(tier: &str, only: Option<&Value>) -> i32 {
                         inputs.insert(i, input.clone());
                     }
                     r.map(|(k, d)| (k, format!("{d}\n--- emitted ---\n{}", b.files["m.rs"])))
+                }
+                (_, None) if !c.expect_methods.is_empty() && c.raw.as_deref().is_some_and(|r| !r.contains("impl T")) => {
+                    // a block for something that is not a type of the module may be rejected
+                    rep.count("foreign_impl_block_rejected", 1);
+                    None
                 }
                 (other, None) => Some(("valid_input_rejected".to_string(), other.err_text())),
             };
